@@ -320,6 +320,10 @@ func (c20) Run(ts *tape.Set, tier Tier) *Result {
 		st.ReadPolicy = nil
 		st.Frag = fragFn(fragSeed+uint64(rep), fragMode)
 		w := newWorld(st, false, nodeReifier)
+		if !nodeReifier && fragSeed%5 == 2 {
+			w = newDerivedWorld(st, false)
+			res.probe("derived-link-system")
+		}
 		var opErr error
 		panicked, site, pmsg := guard(func() { opErr = op(w) })
 		res.Execs++
